@@ -556,6 +556,7 @@ class Fn:
         self.impl_trait = raw.get("impl_trait")
         self.impl_trait_text = raw.get("impl_trait_text")
         self.body = Body(self, raw["mir"])
+        self.promoted = [Body(self, m) for m in raw.get("promoted", [])]
 
     @property
     def file(self):
